@@ -421,12 +421,12 @@ theorem hostsL_nil : hostsL [] = [] := rfl
 
 /-- the record `r` between RA and RB is replaced by MID, which denotes r's hosts without the
     (k-1)-th: records good, counter right, printing still in full, hosts as expected -/
-theorem finish_remove (cfg : Cfg) (e e2 : EL) (RA : List HRange) (r : HRange) (RB MID : List HRange) (k : Nat)
+theorem finish_remove (P : HRange → Prop) (e e2 : EL) (RA : List HRange) (r : HRange) (RB MID : List HRange) (k : Nat)
     (hold : e.ranges = RA ++ r :: RB) (hnew : e2.ranges = RA ++ MID ++ RB)
     (hmid : hostsL MID = r.hosts.take (k - 1) ++ r.hosts.drop k)
-    (hgood : e.Good) (hn : ∀ q ∈ e.ranges, q.PrintsFull cfg) (hk1 : 1 ≤ k) (hk : k ≤ r.hosts.length)
-    (hmg : ∀ q ∈ MID, q.Good) (hmp : ∀ q ∈ MID, q.PrintsFull cfg) (hnh : e2.nhosts = e.nhosts - 1) :
-    e2.Good ∧ (∀ q ∈ e2.ranges, q.PrintsFull cfg) ∧
+    (hgood : e.Good) (hn : ∀ q ∈ e.ranges, P q) (hk1 : 1 ≤ k) (hk : k ≤ r.hosts.length)
+    (hmg : ∀ q ∈ MID, q.Good) (hmp : ∀ q ∈ MID, P q) (hnh : e2.nhosts = e.nhosts - 1) :
+    e2.Good ∧ (∀ q ∈ e2.ranges, P q) ∧
       e2.hosts = hostsL RA ++ r.hosts.take (k - 1) ++ (r.hosts.drop k ++ hostsL RB) := by
   have hh2 : e2.hosts = hostsL RA ++ r.hosts.take (k - 1) ++ (r.hosts.drop k ++ hostsL RB) := by
     show hostsL e2.ranges = _
@@ -525,11 +525,13 @@ theorem removeGuard_ok (o : RObj) (k : Nat) (hg : o.r.Good) (hk1 : 1 ≤ k) (hk 
 
 /-- ONE `hostlist_remove` after a `hostlist_next` that handed out the (k-1)-th name of record i:
     exactly that host leaves the list, and the iterator stands in front of what was left -/
-theorem itRemove_spec (cfg : Cfg) (hfix : cfg.fixRemoveDepth = true) (e : EL) (hid : e.IdsOk) (hg : e.Good)
-    (hn : ∀ q ∈ e.ranges, q.PrintsFull cfg) (i k : Nat) (hc : Coh e i k) (r : HRange)
+theorem itRemove_spec (cfg : Cfg) (hfix : cfg.fixRemoveDepth = true) (P : HRange → Prop)
+    (hmono : ∀ r r' : HRange, P r → r'.width = r.width → r'.hi ≤ r.hi → r'.single = r.single → P r')
+    (e : EL) (hid : e.IdsOk) (hg : e.Good)
+    (hn : ∀ q ∈ e.ranges, P q) (i k : Nat) (hc : Coh e i k) (r : HRange)
     (hr : e.ranges[i]? = some r) (hk1 : 1 ≤ k) (hk : k ≤ r.hosts.length) :
     ∃ (e2 : EL) (i2 k2 : Nat), itRemove cfg e 0 = .ok e2 ∧ e2.IdsOk ∧ e2.Good ∧
-      (∀ q ∈ e2.ranges, q.PrintsFull cfg) ∧ Coh e2 i2 k2 ∧
+      (∀ q ∈ e2.ranges, P q) ∧ Coh e2 i2 k2 ∧
       (∀ q, e2.ranges[i2]? = some q → k2 ≤ q.hosts.length) ∧
       remaining e2.ranges i2 k2 = remaining e.ranges i k ∧
       e2.hosts = hostsL (e.ranges.take i) ++ r.hosts.take (k - 1) ++ remaining e.ranges i k := by
@@ -568,16 +570,16 @@ theorem itRemove_spec (cfg : Cfg) (hfix : cfg.fixRemoveDepth = true) (e : EL) (h
       A.map (·.r) := by
     rw [hranges, ← hRAl, List.take_left' rfl]
   rw [hrem, htakeA]
-  have hop : o.r.PrintsFull cfg := hn o.r (by rw [hranges]; simp)
+  have hop : P o.r := hn o.r (by rw [hranges]; simp)
   -- the four shapes (a single-host record is the "emptied" one)
   have hcases :
       (∃ r', hostrangeDeleteHost o.r (addU64 o.r.lo (k - 1)) = (r', none) ∧ r'.empty = true ∧ k = 1 ∧
           o.r.hosts.length = 1) ∨
       (∃ r', hostrangeDeleteHost o.r (addU64 o.r.lo (k - 1)) = (r', none) ∧ r'.empty = false ∧ r'.Good ∧
-          r'.PrintsFull cfg ∧ r'.hosts = o.r.hosts.take (k - 1) ++ o.r.hosts.drop k ∧
+          P r' ∧ r'.hosts = o.r.hosts.take (k - 1) ++ o.r.hosts.drop k ∧
           r'.hosts.drop (k - 1) = o.r.hosts.drop k ∧ k - 1 ≤ r'.hosts.length) ∨
       (∃ r' up, hostrangeDeleteHost o.r (addU64 o.r.lo (k - 1)) = (r', some up) ∧ r'.Good ∧ up.Good ∧
-          r'.PrintsFull cfg ∧ up.PrintsFull cfg ∧ r'.hosts = o.r.hosts.take (k - 1) ∧
+          P r' ∧ P up ∧ r'.hosts = o.r.hosts.take (k - 1) ∧
           up.hosts = o.r.hosts.drop k) := by
     cases hs : o.r.single with
     | true =>
@@ -602,17 +604,17 @@ theorem itRemove_spec (cfg : Cfg) (hfix : cfg.fixRemoveDepth = true) (e : EL) (h
       · right; left
         have hk' : k = 1 := by omega
         subst hk'
-        refine ⟨r', hd, he, hg', narrow_of_le hop hw hhi hsg, by rw [hh]; simp, by rw [hh]; simp, by simp⟩
+        refine ⟨r', hd, he, hg', hmono _ _ hop hw hhi hsg, by rw [hh]; simp, by rw [hh]; simp, by simp⟩
       · right; left
         have hd0 : o.r.hosts.drop k = [] := List.drop_eq_nil_iff.mpr (by omega)
-        refine ⟨r', hd, he, hg', narrow_of_le hop hw hhi hsg, by rw [hh, hd0]; simp, ?_, ?_⟩
+        refine ⟨r', hd, he, hg', hmono _ _ hop hw hhi hsg, by rw [hh, hd0]; simp, ?_, ?_⟩
         · rw [hd0, hh]
           apply List.drop_eq_nil_iff.mpr
           rw [List.length_take]; omega
         · rw [hh, List.length_take]; omega
       · right; right
         rw [hkk] at hh2
-        exact ⟨r', up, hd, hg1, hg2, narrow_of_le hop hw1 hhi1 hs1, narrow_of_le hop hw2 hhi2 hs2, hh1, hh2⟩
+        exact ⟨r', up, hd, hg1, hg2, hmono _ _ hop hw1 hhi1 hs1, hmono _ _ hop hw2 hhi2 hs2, hh1, hh2⟩
   rcases hcases with ⟨r', hd, he, hk', hl⟩ | ⟨r', hd, he, hg', hp', hh, hdrop, hlen⟩ |
       ⟨r', up, hd, hg1, hg2, hp1, hp2, hh1, hh2⟩
   · -- the record is emptied and goes away
@@ -628,7 +630,7 @@ theorem itRemove_spec (cfg : Cfg) (hfix : cfg.fixRemoveDepth = true) (e : EL) (h
       refine ⟨_, 0, 0, hcomp, ?_, ?_⟩
       · have := ids_erase [] B o nx ⟨by simpa using hnd, by simpa using hidb⟩
         simpa [EL.IdsOk] using this
-      · obtain ⟨h1, h2, h3⟩ := finish_remove cfg
+      · obtain ⟨h1, h2, h3⟩ := finish_remove P
           ⟨o :: B, nh, nx, [(0, ⟨((0 : Nat) : Int), ((1 : Nat) : Int) - 1, some o.id⟩)]⟩
           ⟨B, nh - 1, nx, [(0, ⟨((0 : Nat) : Int), ((0 : Nat) : Int) - 1, EL.hrAt ⟨B, nh - 1, nx, []⟩ ((0 : Nat) : Int)⟩)]⟩
           [] o.r (B.map (·.r)) [] 1 (by simp [EL.ranges]) (by simp [EL.ranges]) hmid0 (by simpa using hg)
@@ -646,7 +648,7 @@ theorem itRemove_spec (cfg : Cfg) (hfix : cfg.fixRemoveDepth = true) (e : EL) (h
       refine ⟨_, A'.length, p.r.hosts.length, hcomp, ?_, ?_⟩
       · have := ids_erase (A' ++ [p]) B o nx ⟨hnd', hidb⟩
         simpa [EL.IdsOk] using this
-      · obtain ⟨h1, h2, h3⟩ := finish_remove cfg
+      · obtain ⟨h1, h2, h3⟩ := finish_remove P
           ⟨(A' ++ [p]) ++ o :: B, nh, nx, [(0, ⟨((A' ++ [p]).length : Int), ((1 : Nat) : Int) - 1, some o.id⟩)]⟩
           ⟨A' ++ p :: B, nh - 1, nx, [(0, ⟨(A'.length : Int), (subU64 p.r.hi p.r.lo : Nat), some p.id⟩)]⟩
           ((A' ++ [p]).map (·.r)) o.r (B.map (·.r)) [] 1 (by simp [EL.ranges]) (by simp [EL.ranges]) hmid0 hg
@@ -675,7 +677,7 @@ theorem itRemove_spec (cfg : Cfg) (hfix : cfg.fixRemoveDepth = true) (e : EL) (h
     refine ⟨_, A.length, k - 1, hcomp, ?_, ?_⟩
     · have := ids_shrink A B o r' nx ⟨hnd, hidb⟩
       simpa [EL.IdsOk] using this
-    · obtain ⟨h1, h2, h3⟩ := finish_remove cfg
+    · obtain ⟨h1, h2, h3⟩ := finish_remove P
         ⟨A ++ o :: B, nh, nx, [(0, ⟨(A.length : Int), (k : Int) - 1, some o.id⟩)]⟩
         ⟨A ++ { o with r := r' } :: B, nh - 1, nx, [(0, ⟨(A.length : Int), (k : Int) - 1 - 1, some o.id⟩)]⟩
         (A.map (·.r)) o.r (B.map (·.r)) [r'] k hranges (by simp [EL.ranges]) (by simp [hostsL, hh]) hg
@@ -702,7 +704,7 @@ theorem itRemove_spec (cfg : Cfg) (hfix : cfg.fixRemoveDepth = true) (e : EL) (h
     · have h1 := ids_shrink A B o r' nx ⟨hnd, hidb⟩
       have := ids_insert A B { o with r := r' } up nx h1
       simpa [EL.IdsOk] using this
-    · obtain ⟨h1, h2, h3⟩ := finish_remove cfg
+    · obtain ⟨h1, h2, h3⟩ := finish_remove P
         ⟨A ++ o :: B, nh, nx, [(0, ⟨(A.length : Int), (k : Int) - 1, some o.id⟩)]⟩
         ⟨A ++ { o with r := r' } :: ⟨nx, up⟩ :: B, nh - 1, nx + 1,
           [(0, ⟨((A.length + 1 : Nat) : Int), ((0 : Nat) : Int) - 1, some nx⟩)]⟩
